@@ -16,6 +16,11 @@
                                   about `main` that are used are the two generated `mainFacts`
                                   (`source_saved_config_replays`)
        `saved_config_is_result_plus_margins`  the saved file = `check_conf`'s result followed by `margins`
+       — these two for `main`'s own writes; `pandora.run`, called in between, overwrites the `indicator`
+       of every confidence step in the same dictionary (`SaveConfig.runIndicators`); §3b/§3c:
+       `saved_config_replays_run`  the dictionary `main` really saves is accepted and completes to *itself*
+                                  (`runPipeline_checked`: the rewritten pipeline is again a fix-point of
+                                  every class check, `construct_indicator`)
     2. the adapter `sideOfDict` / `savedOfDict` from dictionaries to `Save.SideCfg` / `Save.Saved`:
        `accepted_sides`           an input section accepted by `checkInputSection` reads as two `SideCfg`
                                   satisfying `Save.schemaOk` (C19's hypothesis `hacc`, discharged)
@@ -32,63 +37,12 @@
 -/
 import PandoraModel.Properties.C19
 import PandoraModel.Properties.C05Conf
+import PandoraModel.Model.SaveConfig
 
 namespace Pandora.C19C05
-open Pandora Pandora.Config Pandora.ConfigSpec Pandora.Save Pandora.Generated.Schemas
+open Pandora Pandora.Config Pandora.ConfigSpec Pandora.Save Pandora.SaveConfig Pandora.Generated.Schemas
 
-/-! ### 1. `main` on dictionaries -/
-
-/-- a JSON list of integers (Python: bools are integers) -/
-def intsOfJ : List JVal → Option (List Int)
-  | [] => some []
-  | a :: rest =>
-    match intOf? a, intsOfJ rest with
-    | some x, some xs => some (x :: xs)
-    | _, _ => none
-
-/-- Python `[-left[1], -left[0]]` when `right is None` and the left disparity is not a path
-    (`-True` is `-1`; the list is one of integers in every configuration `check_conf` accepted);
-    anything else: `right` unchanged -/
-def derivedRightJ (ld rd : JVal) : JVal :=
-  match rd, ld with
-  | .null, .list l =>
-    match intsOfJ l with
-    | some (x :: y :: _) => .list [.int (-y), .int (-x)]
-    | _ => rd
-  | _, _ => rd
-
-/-- `cfg["input"][side]` -/
-def sideDict (cfg : Dict) (side : String) : Option Dict :=
-  match Dict.lookup cfg "input" with
-  | some (.obj I) =>
-    match Dict.lookup I side with
-    | some (.obj S) => some S
-    | _ => none
-  | _ => none
-
-/-- `cfg["input"]["right"]["disp"] = v` -/
-def setRightDisp (cfg : Dict) (v : JVal) : Dict :=
-  match Dict.lookup cfg "input" with
-  | some (.obj I) =>
-    match Dict.lookup I "right" with
-    | some (.obj R) => Dict.setKey cfg "input" (.obj (Dict.setKey I "right" (.obj (Dict.setKey R "disp" v))))
-    | _ => cfg
-  | _ => cfg
-
-/-- what the former `main` wrote into the configuration it saved -/
-def writeDerived (cfg : Dict) : Dict :=
-  match sideDict cfg "left", sideDict cfg "right" with
-  | some L, some R =>
-    match Dict.lookup L "disp", Dict.lookup R "disp" with
-    | some ld, some rd => setRightDisp cfg (derivedRightJ ld rd)
-    | _, _ => cfg
-  | _, _ => cfg
-
-/-- **Model of `main` from `check_conf`'s result to `save_config`, on dictionaries**: the two things the
-    translator reads off `pandora/__init__.py` (`Save.MainFacts`) -/
-def mainSavedDict (facts : MainFacts) (cfg : Dict) (margins : JVal) : Dict :=
-  let cfg1 := if facts.writesRightDisp then writeDerived cfg else cfg
-  if facts.addsMargins then Dict.setKey cfg1 "margins" margins else cfg1
+/-! ### 1. `main` on dictionaries (`SaveConfig.mainSavedDict`, model in `Model/SaveConfig.lean`) -/
 
 /-- `check_conf` reads the keys `input` and `pipeline` of the user's dictionary and nothing else -/
 theorem checkConf_reads_two_keys (files : Files) (sch : InputSchemas) (fl : MachineFlags) (reg : List KindDesc)
@@ -376,58 +330,6 @@ theorem savedOfDict_mainSaved (facts : MainFacts) (L' R' M : Dict) (l r : SideCf
     simp [mainSavedDict, writeDerived, setRightDisp, sideDict, savedOfDict, mainSaved, Dict.lookup, Dict.setKey,
       hl, hr, hld, hrd, hR]
 
-/-- **C19's replay specification, hypothesis-free for the source**: for every configuration `check_conf`
-    accepts, the dictionary `main` saves reads (through the adapter) as `Save.mainSaved` of two sides `l`,
-    `r`, and all clauses of `Save.specRefeed` hold of it: accepted when fed back, completes to itself, the
-    second run hands `create_dataset_from_inputs` the same sections, the margins are recorded.  `hacc` of
-    `C19.refeed_spec` is discharged by C17's acceptance theorem, `hm` / `hw` by the generated `mainFacts`. -/
-theorem source_refeed_spec_of_checkConf (files : Files) (fl : MachineFlags) (user kvs P : Dict) (m m' : CState)
-    (out : Dict) (hin : Dict.lookup user "input" = some (.obj kvs)) (hpi : Dict.lookup user "pipeline" = some (.obj P))
-    (hnd : (Dict.keys kvs).Nodup) (hfresh : C05W.FreshFor fl m) (hwf : Merge.wfDict P = true)
-    (h : checkConf files inputSchemas fl registry user m = .ok (out, m')) (margins : JVal) :
-    ∃ l r M, savedOfDict (mainSavedDict Pandora.Generated.mainFacts out margins) =
-        some (mainSaved Pandora.Generated.mainFacts l r M margins) ∧
-      Dict.lookup out "pipeline" = some (.obj M) ∧
-      schemaOk l r = true ∧
-      (specRefeed l r (mainSaved Pandora.Generated.mainFacts l r M margins)).all (·.2) = true := by
-  obtain ⟨L', R', M, hci, _, hout⟩ := (C05C.checkConf_ok_iff files fl user kvs P m m' out hin hpi hnd hfresh hwf).1 h
-  obtain ⟨_, _, L2, R2, _, _, _, _, _, hform, hshape⟩ := (C17W.checkInputSection_ok_iff files fl kvs _ hnd).1 hci
-  simp only [List.cons.injEq, Prod.mk.injEq, JVal.obj.injEq, true_and, and_true] at hshape
-  obtain ⟨rfl, rfl⟩ := hshape
-  obtain ⟨l, r, hl, hr, hacc, ld, rd, hld, hrd, hdl, hdr⟩ := accepted_sides hform
-  refine ⟨l, r, M, ?_, by rw [hout]; simp [Dict.lookup], hacc, ?_⟩
-  · rw [hout]
-    exact savedOfDict_mainSaved _ L' R' M l r ld rd hl hr hld hrd hdl hdr margins
-  · exact C19.source_refeed_spec l r M margins hacc (fun hw => by rw [source_main_facts.1] at hw; cases hw)
-
-/-- **the two models of feeding the saved file back agree**: C19's abstract `refeedInput` on the adapter's
-    reading of the saved dictionary accepts and returns the adapter's reading of the input section the
-    dictionary model `checkConf` returns for that same saved dictionary -/
-theorem refeed_models_agree (files : Files) (fl : MachineFlags) (user kvs P : Dict) (m m' : CState)
-    (out : Dict) (hin : Dict.lookup user "input" = some (.obj kvs)) (hpi : Dict.lookup user "pipeline" = some (.obj P))
-    (hnd : C17W.NodupSection kvs) (hfresh : C05W.FreshFor fl m) (hwf : Merge.wfDict P = true)
-    (h : checkConf files inputSchemas fl registry user m = .ok (out, m')) (margins : JVal)
-    (m2 : CState) (hfresh2 : C05W.FreshFor fl m2) :
-    ∃ s out2 m2' L2 R2,
-      savedOfDict (mainSavedDict Pandora.Generated.mainFacts out margins) = some s ∧
-      checkConf files inputSchemas fl registry (mainSavedDict Pandora.Generated.mainFacts out margins) m2 = .ok (out2, m2') ∧
-      sideDict out2 "left" = some L2 ∧ sideDict out2 "right" = some R2 ∧
-      refeedInput s = (sideOfDict L2).bind (fun l2 => (sideOfDict R2).map (fun r2 => (l2, r2))) ∧
-      (refeedInput s).isSome = true := by
-  obtain ⟨m2', h2⟩ := saved_config_replays files fl user kvs P m m' out hin hpi hnd hfresh hwf h
-    Pandora.Generated.mainFacts source_main_facts.1 margins m2 hfresh2
-  obtain ⟨L', R', M, hci, _, hout⟩ := (C05C.checkConf_ok_iff files fl user kvs P m m' out hin hpi hnd.1 hfresh hwf).1 h
-  obtain ⟨_, _, L2, R2, _, _, _, _, _, hform, hshape⟩ := (C17W.checkInputSection_ok_iff files fl kvs _ hnd.1).1 hci
-  simp only [List.cons.injEq, Prod.mk.injEq, JVal.obj.injEq, true_and, and_true] at hshape
-  obtain ⟨rfl, rfl⟩ := hshape
-  obtain ⟨l, r, hl, hr, hacc, ld, rd, hld, hrd, hdl, hdr⟩ := accepted_sides hform
-  refine ⟨mainSaved Pandora.Generated.mainFacts l r M margins, out, m2', L', R', ?_, h2, ?_, ?_, ?_, ?_⟩
-  · rw [hout]; exact savedOfDict_mainSaved _ L' R' M l r ld rd hl hr hld hrd hdl hdr margins
-  · rw [hout]; simp [sideDict, Dict.lookup]
-  · rw [hout]; simp [sideDict, Dict.lookup]
-  · simp [refeedInput, mainSaved, source_main_facts.1, C19.checkInput_asUser, hacc, hl, hr]
-  · simp [refeedInput, mainSaved, source_main_facts.1, C19.checkInput_asUser, hacc]
-
 /-! ### 3. The pipeline section as an instance of `Save.checkPipeline`; `hidem` proved -/
 
 /-- **the check of one step of the pipeline section**, as a function `S → Option S` with
@@ -574,6 +476,461 @@ theorem saved_pipeline_names {o : Oracle} {fl : MachineFlags} {P : Dict} {l r : 
   have := C19.checkPipeline_names (stepCheck o fl l r) _ _ (checkPipelineSection_checkPipeline hfresh hwf h)
   rwa [stepsOf_names, stepsOf_names] at this
 
+/-! ### 3b. What `run` writes into the configuration (`SaveConfig.runIndicators`) keeps it a fix-point -/
+
+theorem setKey_values (P : JVal → Prop) (d : Dict) (k : String) (v : JVal) (hnd : (Dict.keys d).Nodup)
+    (hpres : Dict.lookup d k ≠ none) (hd : ∀ kv ∈ d, P kv.2) (hv : P v) :
+    ∀ kv ∈ Dict.setKey d k v, P kv.2 := by
+  intro kv hm
+  have hk := Merge.keys_setKey_present d k v hpres
+  have hl := Merge.lookup_of_mem _ kv.1 kv.2 (by rw [hk]; exact hnd) hm
+  rw [Merge.lookup_setKey] at hl
+  by_cases e : k = kv.1
+  · simp only [e, if_true, Option.some.injEq] at hl
+    rw [← hl]; exact hv
+  · simp only [e, if_false] at hl
+    exact hd _ (Merge.mem_of_lookup d kv.1 kv.2 hl)
+
+/-- replacing the value of a present key by a leaf `update_conf` leaves alone keeps a dictionary in the
+    form `update_conf` delivers -/
+theorem wf_fixed_setKey (d : Dict) (k : String) (v : JVal) (hw : Merge.wfDict d = true) (hf : Merge.deepRwD d = d)
+    (hpres : Dict.lookup d k ≠ none) (hleaf : v.isObj = false) (hfix : rewriteLeaf v = v) :
+    Merge.wfDict (Dict.setKey d k v) = true ∧ Merge.deepRwD (Dict.setKey d k v) = Dict.setKey d k v := by
+  have hnd := Merge.wfDict_keys_nodup d hw
+  constructor
+  · apply (Merge.wfDict_iff _).2
+    refine ⟨by rw [Merge.keys_setKey_present d k v hpres]; exact hnd, ?_⟩
+    exact setKey_values (fun x => Merge.wfVal x = true) d k v hnd hpres
+      (fun kv hm => Merge.wfDict_mem hw (k := kv.1) (v := kv.2) hm) (Merge.wfVal_leaf v hleaf)
+  · apply Merge.fixedDict_of_mem
+    exact setKey_values Merge.fixedVal d k v hnd hpres
+      (fun kv hm => Merge.fixedDict_mem hf (k := kv.1) (v := kv.2) hm) (Merge.fixedVal_of_leaf v hleaf hfix)
+
+/-- the suffix `run` writes is `""` or starts with a dot: never one of the strings `update_conf` rewrites -/
+theorem indicatorOf_fixed (n : String) : rewriteLeaf (.str (indicatorOf n)) = .str (indicatorOf n) := by
+  have key : ∀ (l : List Char), (l.dropWhile (· != '.')) = [] ∨ ∃ t, (l.dropWhile (· != '.')) = '.' :: t := by
+    intro l
+    induction l with
+    | nil => exact Or.inl rfl
+    | cons c cs ih =>
+      by_cases hc : c = '.'
+      · subst hc; exact Or.inr ⟨cs, by simp⟩
+      · have : ((c :: cs).dropWhile (· != '.')) = cs.dropWhile (· != '.') := by
+          rw [List.dropWhile_cons]; simp [hc]
+        rw [this]; exact ih
+  have hne : ∀ (x : String), x.toList.head? = some 'N' ∨ x.toList.head? = some 'i' ∨ x.toList.head? = some '-' →
+      indicatorOf n ≠ x := by
+    intro x hx e
+    have : (indicatorOf n).toList = n.toList.dropWhile (· != '.') := by simp [indicatorOf]
+    rw [e] at this
+    rcases key n.toList with h | ⟨t, h⟩ <;> rw [h] at this <;> rw [this] at hx <;> simp at hx
+  unfold rewriteLeaf
+  have h1 : indicatorOf n ≠ "NaN" := hne "NaN" (Or.inl (by decide))
+  have h2 : indicatorOf n ≠ "inf" := hne "inf" (Or.inr (Or.inl (by decide)))
+  have h3 : indicatorOf n ≠ "-inf" := hne "-inf" (Or.inr (Or.inr (by decide)))
+  simp [h1, h2, h3]
+
+/-- no guard, no refusal of grids in an action list -/
+def guardFree (acts : List Action) : Bool :=
+  acts.all fun a => match a with
+    | .default _ _ => true
+    | .defaultElifNaN _ _ => true
+    | _ => false
+
+/-- what the confidence classes of the source have in common, as far as `indicator` goes: a plain default,
+    never NaN-rewritten, any string accepted, no guard in the class -/
+def indicatorFacts (c : ClassDesc) : Bool :=
+  C05.wfActions c.actions && guardFree c.actions &&
+  (C05.defaultKeys c.actions).contains "indicator" && !(C05.nanKeys c.actions).contains "indicator" &&
+  c.schema.all (fun e => e.1 != "indicator" || decide (e.2.2 = Schema.type .str))
+
+theorem generated_indicator_facts :
+    kind_cost_volume_confidence.classes.all indicatorFacts = true ∧
+    kind_cost_volume_confidence.methodKey = "confidence_method" ∧
+    kindDesc? registry "cost_volume_confidence" = some kind_cost_volume_confidence :=
+  ⟨by decide, by decide, rfl⟩
+
+theorem guardFree_compatible (l r : ImgInfo) (acts : List Action) (h : guardFree acts = true) (cfg : Dict) :
+    C05.GuardsCompatible l r acts cfg := by
+  simp only [guardFree, List.all_eq_true] at h
+  constructor
+  · intro k g e hm
+    have := h _ hm
+    simp at this
+  · intro hm
+    have := h _ hm
+    simp at this
+
+/-- **a class check that returned its argument returns it again after `indicator` is overwritten by a string** -/
+theorem classCheck_indicator {o : Oracle} {c : ClassDesc} {l r : ImgInfo} {cfg : Dict} (s : String)
+    (hfacts : indicatorFacts c = true) (hnd : (Dict.keys cfg).Nodup)
+    (h : classCheck o c l r cfg = .ok cfg) :
+    classCheck o c l r (Dict.setKey cfg "indicator" (.str s)) = .ok (Dict.setKey cfg "indicator" (.str s)) := by
+  simp only [indicatorFacts, Bool.and_eq_true, Bool.not_eq_true', List.all_eq_true, Bool.or_eq_true,
+    bne_iff_ne, ne_eq, decide_eq_true_eq] at hfacts
+  obtain ⟨⟨⟨⟨hwf, hgf⟩, hdk⟩, hnk⟩, hsch⟩ := hfacts
+  obtain ⟨hrun, hacc⟩ := C05.classCheck_ok h
+  have hkeys := C05.runActions_keys l r c.actions cfg cfg hwf hrun
+  have hlook := C05.runActions_lookup l r c.actions cfg cfg hwf hrun
+  -- every defaulted key is present in `cfg`
+  have hfil : (C05.defaultKeys c.actions).filter (fun k => !(Dict.keys cfg).contains k) = [] := by
+    have : Dict.keys cfg ++ [] = Dict.keys cfg ++ (C05.defaultKeys c.actions).filter (fun k => !(Dict.keys cfg).contains k) := by
+      rw [List.append_nil]; exact hkeys
+    exact (List.append_cancel_left this).symm
+  have hpres : Dict.lookup cfg "indicator" ≠ none := by
+    intro hn
+    have hnot := (Merge.lookup_none_iff cfg "indicator").1 hn
+    have : "indicator" ∈ (C05.defaultKeys c.actions).filter (fun k => !(Dict.keys cfg).contains k) := by
+      rw [List.mem_filter]
+      exact ⟨by simpa using hdk, by simpa using hnot⟩
+    rw [hfil] at this
+    cases this
+  obtain ⟨cfg', hcfg'⟩ : ∃ x, x = Dict.setKey cfg "indicator" (.str s) := ⟨_, rfl⟩
+  rw [← hcfg']
+  have hk' : Dict.keys cfg' = Dict.keys cfg := by rw [hcfg']; exact Merge.keys_setKey_present cfg _ _ hpres
+  obtain ⟨out', hrun'⟩ := C05.runActions_succeeds l r c.actions cfg' hwf (guardFree_compatible l r _ hgf cfg')
+  have hkeys' := C05.runActions_keys l r c.actions cfg' out' hwf hrun'
+  have hlook' := C05.runActions_lookup l r c.actions cfg' out' hwf hrun'
+  rw [hk', hfil, List.append_nil] at hkeys'
+  have hout : out' = cfg' := by
+    apply Merge.dict_ext out' cfg' (by rw [hkeys', hk']) (by rw [hkeys']; exact hnd)
+    intro k
+    rw [hlook' k, hcfg', Merge.lookup_setKey]
+    by_cases e : "indicator" = k
+    · subst e
+      simp only [if_true]
+      rw [C05.nanFix_of_not_mem _ _ _ (by simpa using hnk)]
+    · simp only [e, if_false]
+      have := hlook k
+      cases hc : Dict.lookup cfg k with
+      | none => simp only [hc] at this ⊢; exact this.symm
+      | some u => simp only [hc] at this ⊢; exact this.symm
+  rw [hout] at hrun'
+  apply (C05.classCheck_ok_iff o c l r cfg' cfg').2
+  refine ⟨hrun', ?_⟩
+  obtain ⟨hent, hkk⟩ := (Merge.dict_accepts_iff o c.schema cfg).1 hacc
+  apply (Merge.dict_accepts_iff o c.schema cfg').2
+  constructor
+  · intro e he
+    rw [hcfg', Merge.lookup_setKey]
+    by_cases ek : "indicator" = e.1
+    · simp only [ek, if_true]
+      rcases hsch e he with h1 | h1
+      · exact absurd ek.symm h1
+      · rw [h1]; simp [Schema.accepts, PyType.isInstance]
+    · simp only [ek, if_false]
+      exact hent e he
+  · intro kv hkv
+    have hin : kv.1 ∈ Dict.keys cfg := by rw [← hk']; exact List.mem_map_of_mem (f := (·.1)) hkv
+    obtain ⟨kv0, hkv0, he⟩ := List.mem_map.1 hin
+    obtain ⟨e, he1, he2⟩ := hkk kv0 hkv0
+    exact ⟨e, he1, by rw [he2, he]⟩
+
+/-- `AbstractCostVolumeConfidence(**cfg)` of the source: a fix-point stays one when `indicator` is overwritten -/
+theorem construct_indicator {o : Oracle} {l r : ImgInfo} {cfg : Dict} (s : String) (hnd : (Dict.keys cfg).Nodup)
+    (h : construct o kind_cost_volume_confidence l r cfg = .ok cfg) :
+    construct o kind_cost_volume_confidence l r (Dict.setKey cfg "indicator" (.str s)) =
+      .ok (Dict.setKey cfg "indicator" (.str s)) := by
+  obtain ⟨hall, hmk, _⟩ := generated_indicator_facts
+  obtain ⟨m, c, hm, hf, hcc⟩ := C05W.construct_ok h
+  have hc := (C05W.findClass_some hf).1
+  rw [List.all_eq_true] at hall
+  have hcc' := classCheck_indicator s (hall c hc) hnd hcc
+  unfold construct
+  rw [hmk] at hm ⊢
+  rw [lookup_setKey_ne _ _ _ _ (by decide), hm]
+  simp only [hf]
+  exact hcc'
+
+/-- "`Q` is a checked pipeline": in the form `update_conf` delivers, its step names a path of the automaton,
+    every step a fix-point of its class check that passes the callback's own test -/
+def CheckedPipeline (o : Oracle) (fl : MachineFlags) (l r : ImgInfo) (Q : Dict) : Prop :=
+  Merge.wfDict Q = true ∧ Merge.deepRwD Q = Q ∧ Machine.isPath .begin (Dict.keys Q) = true ∧
+  (Machine.hasKind .validation (Dict.keys Q) = true → (r.dispSource.isStr && l.dispSource.isNull) = false) ∧
+  ∀ n v, (n, v) ∈ Q → ∃ kind cfg kd, Machine.Kind.ofName? (Machine.kindOf n) = some kind ∧ v = .obj cfg ∧
+    kindDesc? registry kind.name = some kd ∧ construct o kd l r cfg = .ok cfg ∧ C05W.extraOk fl kind l r cfg = true
+
+/-- **a checked pipeline is returned unchanged by `check_pipeline_section`** (fresh machine) -/
+theorem checkPipelineSection_of_checked {o : Oracle} {fl : MachineFlags} {l r : ImgInfo} {Q : Dict}
+    (hQ : CheckedPipeline o fl l r Q) (m : CState) (hfresh : C05W.FreshFor fl m) :
+    ∃ m', checkPipelineSection o fl registry [("pipeline", .obj Q)] l r m = .ok ([("pipeline", .obj Q)], m') := by
+  obtain ⟨hw, hf, hpath, hmirror, hsteps⟩ := hQ
+  have hnd := Merge.wfDict_keys_nodup Q hw
+  have hvfix : ∀ n v, (n, v) ∈ Q → Merge.deepRw v = v := fun n v hm => Merge.fixedDict_mem hf hm
+  obtain ⟨out, m', h⟩ := (C05W.checkPipelineSection_ok_iff o fl Q l r m hfresh hw).2 ⟨hpath, by
+    intro n v hm
+    obtain ⟨kind, cfg, kd, hk, hv, hkd, hc, he⟩ := hsteps n v hm
+    rw [hvfix n v hm]
+    exact ⟨kind, cfg, kd, cfg, hk, hv, hkd, hc, he⟩, hmirror⟩
+  obtain ⟨hout, hkeys, hst⟩ := C05W.checkPipelineSection_structure hfresh hw h
+  have hM : m'.pipelineCfg = Q := by
+    apply Merge.dict_ext _ _ hkeys (by rw [hkeys]; exact hnd)
+    intro k
+    by_cases hk : k ∈ Dict.keys Q
+    · obtain ⟨kind, cfgU, kd, outn, hkind, hP, hkd, hc, hM⟩ := hst k hk
+      have hmem := Merge.mem_of_lookup Q k _ hP
+      obtain ⟨kind2, cfg2, kd2, hkind2, hv2, hkd2, hc2, _⟩ := hsteps k _ hmem
+      cases hv2
+      rw [hkind] at hkind2; cases hkind2
+      rw [hkd] at hkd2; cases hkd2
+      have hfx : Merge.deepRwD cfgU = cfgU := by
+        have := hvfix k _ hmem
+        simpa [Merge.deepRw] using this
+      rw [hfx, hc2] at hc
+      cases hc
+      rw [hM, hP]
+    · rw [(Merge.lookup_none_iff _ k).2 (by rw [hkeys]; exact hk), (Merge.lookup_none_iff _ k).2 hk]
+  exact ⟨m', by rw [h, hout, hM]⟩
+
+/-- the pipeline `check_pipeline_section` returned is a checked pipeline -/
+theorem checked_of_checkPipelineSection {o : Oracle} {fl : MachineFlags} {P : Dict} {l r : ImgInfo}
+    {m m' : CState} {out : Dict} (hfresh : C05W.FreshFor fl m) (hwf : Merge.wfDict P = true)
+    (h : checkPipelineSection o fl registry [("pipeline", .obj P)] l r m = .ok (out, m')) :
+    CheckedPipeline o fl l r m'.pipelineCfg := by
+  obtain ⟨hmach, _⟩ := C05W.checkPipelineSection_machine hfresh hwf h
+  have hw' := Merge.wfDict_deepRwD P hwf
+  have hnd' : (Dict.keys (Merge.deepRwD P)).Nodup := Merge.wfDict_keys_nodup _ hw'
+  have hchecked := C05.machineCheck_fresh o fl registry (Merge.deepRwD P) l r m m' hfresh hnd' hmach
+  obtain ⟨hMw, hMf⟩ := C05W.checked_wf hw' (Merge.deepRwD_idem P) hchecked
+  obtain ⟨hkeys, hsteps⟩ := hchecked
+  obtain ⟨hpath, hacc, hmirror⟩ :=
+    (C05W.machineCheck_ok_iff o fl registry C05W.registry_noOptimization (Merge.deepRwD P) l r m).1 ⟨m', hmach⟩
+  refine ⟨hMw, hMf, by rw [hkeys]; exact hpath, by rw [hkeys]; exact hmirror, ?_⟩
+  intro n v hm
+  have hndM : (Dict.keys m'.pipelineCfg).Nodup := Merge.wfDict_keys_nodup _ hMw
+  have hl := Merge.lookup_of_mem _ n v hndM hm
+  have hn : n ∈ Dict.keys (Merge.deepRwD P) := by rw [← hkeys]; exact Merge.mem_keys_of_lookup hl
+  obtain ⟨kind, cfg, kd, outn, hkind, hP, hkd, hc, hM⟩ := hsteps n hn
+  obtain ⟨kind', cfg', kd', out', hkind', hP', hkd', hc', hex'⟩ := hacc n hn
+  rw [hP] at hP'; simp only [Option.getD_some, JVal.obj.injEq] at hP'; subst hP'
+  rw [hkind] at hkind'; cases hkind'
+  rw [hkd] at hkd'; cases hkd'
+  rw [hc] at hc'; cases hc'
+  rw [hl] at hM; cases hM
+  have hmem := Merge.mem_of_lookup _ n _ hP
+  have hcw : Merge.wfDict cfg = true := by simpa using Merge.wfDict_mem hw' hmem
+  have hcf : Merge.deepRwD cfg = cfg := by
+    have := Merge.fixedDict_mem (Merge.deepRwD_idem P) hmem
+    unfold Merge.fixedVal at this; simpa using this
+  exact ⟨kind, outn, kd, hkind, rfl, hkd, C05W.construct_idem (C05W.kindDesc_some hkd).1 hcw hcf hc, hex'⟩
+
+theorem runPipeline_keys (M : Dict) : Dict.keys (runPipeline M) = Dict.keys M := by
+  simp only [runPipeline, Dict.keys, List.map_map]
+  apply List.map_congr_left
+  intro kv _
+  simp only [Function.comp, runStep]
+  split
+  · split <;> rfl
+  · rfl
+
+/-- **what `run` writes keeps the pipeline checked**: the `indicator` of every confidence step overwritten by
+    the suffix of its name, the result is again a checked pipeline -/
+theorem runPipeline_checked {o : Oracle} {fl : MachineFlags} {l r : ImgInfo} {M : Dict}
+    (hM : CheckedPipeline o fl l r M) : CheckedPipeline o fl l r (runPipeline M) := by
+  obtain ⟨hw, hf, hpath, hmirror, hsteps⟩ := hM
+  have hnd := Merge.wfDict_keys_nodup M hw
+  -- every step of the rewritten pipeline
+  have hstep : ∀ n v, (n, v) ∈ runPipeline M → ∃ kind cfg kd, Machine.Kind.ofName? (Machine.kindOf n) = some kind ∧
+      v = .obj cfg ∧ kindDesc? registry kind.name = some kd ∧ construct o kd l r cfg = .ok cfg ∧
+      C05W.extraOk fl kind l r cfg = true ∧ Merge.wfDict cfg = true ∧ Merge.deepRwD cfg = cfg := by
+    intro n v hm
+    simp only [runPipeline, List.mem_map] at hm
+    obtain ⟨kv, hkv, he⟩ := hm
+    obtain ⟨kind, cfg, kd, hk, hv, hkd, hc, hex⟩ := hsteps kv.1 kv.2 hkv
+    have hcw : Merge.wfDict cfg = true := by
+      have := Merge.wfDict_mem hw (k := kv.1) (v := kv.2) hkv
+      rw [hv] at this; simpa [Merge.wfVal] using this
+    have hcf : Merge.deepRwD cfg = cfg := by
+      have := Merge.fixedDict_mem hf (k := kv.1) (v := kv.2) hkv
+      rw [hv] at this; unfold Merge.fixedVal at this; simpa using this
+    unfold runStep at he
+    by_cases hcvc : Machine.kindOf kv.1 = "cost_volume_confidence"
+    · simp only [hcvc, if_true, hv] at he
+      have hn : n = kv.1 := (Prod.mk.inj he).1.symm
+      have hvv : v = .obj (Dict.setKey cfg "indicator" (.str (indicatorOf kv.1))) := (Prod.mk.inj he).2.symm
+      have hkk : kind = .costVolumeConfidence := by
+        rw [hcvc] at hk
+        have : Machine.Kind.ofName? "cost_volume_confidence" = some .costVolumeConfidence := by decide
+        rw [this] at hk; cases hk; rfl
+      subst hkk
+      have hkd' : kd = kind_cost_volume_confidence := by
+        have := generated_indicator_facts.2.2
+        have e : Machine.Kind.costVolumeConfidence.name = "cost_volume_confidence" := by decide
+        rw [e, this] at hkd; cases hkd; rfl
+      subst hkd'
+      have hndc := Merge.wfDict_keys_nodup cfg hcw
+      have hci := construct_indicator (o := o) (l := l) (r := r) (indicatorOf kv.1) hndc hc
+      -- `indicator` is present in a dictionary a confidence class returned
+      have hpres : Dict.lookup cfg "indicator" ≠ none := by
+        obtain ⟨m, c, _, hfc, hcc⟩ := C05W.construct_ok hc
+        have hall := generated_indicator_facts.1
+        rw [List.all_eq_true] at hall
+        have hfacts := hall c (C05W.findClass_some hfc).1
+        simp only [indicatorFacts, Bool.and_eq_true, Bool.not_eq_true', List.all_eq_true] at hfacts
+        obtain ⟨⟨⟨⟨hwfa, _⟩, hdk⟩, _⟩, _⟩ := hfacts
+        have hkeys := C05.runActions_keys l r c.actions cfg cfg hwfa (C05.classCheck_ok hcc).1
+        intro hn'
+        have hnot := (Merge.lookup_none_iff cfg "indicator").1 hn'
+        have hmem : "indicator" ∈ (C05.defaultKeys c.actions).filter (fun k => !(Dict.keys cfg).contains k) := by
+          rw [List.mem_filter]; exact ⟨by simpa using hdk, by simpa using hnot⟩
+        have hin : "indicator" ∈ Dict.keys cfg := by rw [hkeys]; exact List.mem_append_right _ hmem
+        exact hnot hin
+      obtain ⟨hw2, hf2⟩ := wf_fixed_setKey cfg "indicator" (.str (indicatorOf kv.1)) hcw hcf hpres rfl (indicatorOf_fixed kv.1)
+      exact ⟨.costVolumeConfidence, _, kind_cost_volume_confidence, by rw [hn]; exact hk, hvv, hkd, hci,
+        by simp [C05W.extraOk], hw2, hf2⟩
+    · simp only [hcvc, if_false] at he
+      have hn : n = kv.1 := by rw [he]
+      have hvv : v = kv.2 := by rw [he]
+      exact ⟨kind, cfg, kd, by rw [hn]; exact hk, by rw [hvv]; exact hv, hkd, hc, hex, hcw, hcf⟩
+  have hkeys := runPipeline_keys M
+  refine ⟨?_, ?_, by rw [hkeys]; exact hpath, by rw [hkeys]; exact hmirror, ?_⟩
+  · apply (Merge.wfDict_iff _).2
+    refine ⟨by rw [hkeys]; exact hnd, ?_⟩
+    intro kv hm
+    obtain ⟨_, cfg, _, _, hv, _, _, _, hcw, _⟩ := hstep kv.1 kv.2 hm
+    rw [hv]; simpa [Merge.wfVal] using hcw
+  · apply Merge.fixedDict_of_mem
+    intro kv hm
+    obtain ⟨_, cfg, _, _, hv, _, _, _, _, hcf⟩ := hstep kv.1 kv.2 hm
+    rw [hv]; unfold Merge.fixedVal; simp [hcf]
+  · intro n v hm
+    obtain ⟨kind, cfg, kd, hk, hv, hkd, hc, hex, _, _⟩ := hstep n v hm
+    exact ⟨kind, cfg, kd, hk, hv, hkd, hc, hex⟩
+
+theorem runPipeline_idem (M : Dict) : runPipeline (runPipeline M) = runPipeline M := by
+  simp only [runPipeline, List.map_map]
+  apply List.map_congr_left
+  intro kv _
+  simp only [Function.comp]
+  unfold runStep
+  by_cases hcvc : Machine.kindOf kv.1 = "cost_volume_confidence"
+  · simp only [hcvc, if_true]
+    cases hv : kv.2 with
+    | obj step =>
+      simp only [hcvc, if_true]
+      congr 2
+      have : Dict.lookup (Dict.setKey step "indicator" (.str (indicatorOf kv.1))) "indicator" =
+          some (.str (indicatorOf kv.1)) := by rw [Merge.lookup_setKey]; simp
+      exact Merge.setKey_same _ _ _ this
+    | _ => simp [hcvc, hv]
+  · simp [hcvc]
+
+theorem runIndicators_shape (I : JVal) (M : Dict) :
+    runIndicators [("input", I), ("pipeline", .obj M)] = [("input", I), ("pipeline", .obj (runPipeline M))] := by
+  simp [runIndicators, Dict.lookup, Dict.setKey]
+
+theorem runIndicators_idem (I : JVal) (M : Dict) :
+    runIndicators (runIndicators [("input", I), ("pipeline", .obj M)]) = runIndicators [("input", I), ("pipeline", .obj M)] := by
+  rw [runIndicators_shape, runIndicators_shape, runPipeline_idem]
+
+/-- **The configuration `main` really saves — `check_conf`'s result, the indicators `run` wrote into it, the
+    margins — is accepted again and completes to itself.**  As `saved_config_replays`, for the dictionary
+    `main` holds when it calls `save_config`: between `check_conf` and `save_config`, `pandora.run` has
+    overwritten the `indicator` of every confidence step (`SaveConfig.runIndicators`).  The second
+    `check_conf` returns that dictionary (without `margins`): same input section, same steps, same
+    parameters, the indicators `run` will write again. -/
+theorem saved_config_replays_run (files : Files) (fl : MachineFlags) (user kvs P : Dict) (m m' : CState) (out : Dict)
+    (hin : Dict.lookup user "input" = some (.obj kvs)) (hpi : Dict.lookup user "pipeline" = some (.obj P))
+    (hnd : C17W.NodupSection kvs) (hfresh : C05W.FreshFor fl m) (hwf : Merge.wfDict P = true)
+    (h : checkConf files inputSchemas fl registry user m = .ok (out, m'))
+    (facts : MainFacts) (hw : facts.writesRightDisp = false) (margins : JVal)
+    (m2 : CState) (hfresh2 : C05W.FreshFor fl m2) :
+    ∃ m2', checkConf files inputSchemas fl registry (mainSavedDict facts (runIndicators out) margins) m2 =
+      .ok (runIndicators out, m2') := by
+  obtain ⟨L', R', M, hci, hcp, hout⟩ := (C05C.checkConf_ok_iff files fl user kvs P m m' out hin hpi hnd.1 hfresh hwf).1 h
+  have hci2 := C17W.checkInputSection_idempotent hnd hci
+  have hMeq : M = m'.pipelineCfg := by
+    obtain ⟨hs, _, _⟩ := C05W.checkPipelineSection_structure hfresh hwf hcp
+    simpa using hs
+  have hchk := runPipeline_checked (checked_of_checkPipelineSection hfresh hwf hcp)
+  rw [← hMeq] at hchk
+  obtain ⟨m2', hcp2⟩ := checkPipelineSection_of_checked hchk m2 hfresh2
+  refine ⟨m2', ?_⟩
+  rw [checkConf_reads_two_keys files inputSchemas fl registry (runIndicators out)
+    (mainSavedDict facts (runIndicators out) margins) m2
+    (mainSavedDict_lookup facts hw _ margins "input" (by decide))
+    (mainSavedDict_lookup facts hw _ margins "pipeline" (by decide))]
+  rw [hout, runIndicators_shape]
+  apply (C05C.checkConf_ok_iff files fl _ [("left", .obj L'), ("right", .obj R')] (runPipeline M) m2 m2' _
+    (by simp [Dict.lookup]) (by simp [Dict.lookup]) (by simp [Dict.keys]) hfresh2 hchk.1).2
+  exact ⟨L', R', runPipeline M, hci2, hcp2, rfl⟩
+
+theorem source_saved_config_replays_run (files : Files) (user kvs P : Dict) (m m' : CState) (out : Dict)
+    (hin : Dict.lookup user "input" = some (.obj kvs)) (hpi : Dict.lookup user "pipeline" = some (.obj P))
+    (hnd : C17W.NodupSection kvs) (hwf : Merge.wfDict P = true)
+    (h : checkConf files inputSchemas machineFlags registry user m = .ok (out, m'))
+    (margins : JVal) (m2 : CState) :
+    ∃ m2', checkConf files inputSchemas machineFlags registry
+      (mainSavedDict Pandora.Generated.mainFacts (runIndicators out) margins) m2 = .ok (runIndicators out, m2') :=
+  saved_config_replays_run files machineFlags user kvs P m m' out hin hpi hnd (Or.inr (by decide)) hwf h
+    Pandora.Generated.mainFacts source_main_facts.1 margins m2 (Or.inr (by decide))
+
+/-- without a confidence step nothing is written by `run`: the saved pipeline is `check_conf`'s -/
+theorem runPipeline_id_of_no_confidence (M : Dict)
+    (h : ∀ kv ∈ M, Machine.kindOf kv.1 ≠ "cost_volume_confidence") : runPipeline M = M := by
+  unfold runPipeline
+  conv => rhs; rw [← List.map_id M]
+  apply List.map_congr_left
+  intro kv hkv
+  simp [runStep, h kv hkv]
+
+/-! ### 3c. C19's abstract replay specification on the configuration `main` really saves -/
+
+/-- **C19's replay specification, hypothesis-free for the source**: for every configuration `check_conf`
+    accepts, the dictionary `main` saves (indicators written by `run`, margins added) reads — through the
+    adapter — as `Save.mainSaved` of two sides `l`, `r` and the rewritten pipeline, and all clauses of
+    `Save.specRefeed` hold of it: accepted when fed back, completes to itself, the second run hands
+    `create_dataset_from_inputs` the same sections, the margins are recorded.  `hacc` of `C19.refeed_spec`
+    is discharged by C17's acceptance theorem, `hm` / `hw` by the generated `mainFacts`. -/
+theorem source_refeed_spec_of_checkConf (files : Files) (fl : MachineFlags) (user kvs P : Dict) (m m' : CState)
+    (out : Dict) (hin : Dict.lookup user "input" = some (.obj kvs)) (hpi : Dict.lookup user "pipeline" = some (.obj P))
+    (hnd : (Dict.keys kvs).Nodup) (hfresh : C05W.FreshFor fl m) (hwf : Merge.wfDict P = true)
+    (h : checkConf files inputSchemas fl registry user m = .ok (out, m')) (margins : JVal) :
+    ∃ l r M, savedOfDict (mainSavedDict Pandora.Generated.mainFacts (runIndicators out) margins) =
+        some (mainSaved Pandora.Generated.mainFacts l r (runPipeline M) margins) ∧
+      Dict.lookup out "pipeline" = some (.obj M) ∧
+      schemaOk l r = true ∧
+      (specRefeed l r (mainSaved Pandora.Generated.mainFacts l r (runPipeline M) margins)).all (·.2) = true := by
+  obtain ⟨L', R', M, hci, _, hout⟩ := (C05C.checkConf_ok_iff files fl user kvs P m m' out hin hpi hnd hfresh hwf).1 h
+  obtain ⟨_, _, L2, R2, _, _, _, _, _, hform, hshape⟩ := (C17W.checkInputSection_ok_iff files fl kvs _ hnd).1 hci
+  simp only [List.cons.injEq, Prod.mk.injEq, JVal.obj.injEq, true_and, and_true] at hshape
+  obtain ⟨rfl, rfl⟩ := hshape
+  obtain ⟨l, r, hl, hr, hacc, ld, rd, hld, hrd, hdl, hdr⟩ := accepted_sides hform
+  refine ⟨l, r, M, ?_, by rw [hout]; simp [Dict.lookup], hacc, ?_⟩
+  · rw [hout, runIndicators_shape]
+    exact savedOfDict_mainSaved _ L' R' (runPipeline M) l r ld rd hl hr hld hrd hdl hdr margins
+  · exact C19.source_refeed_spec l r (runPipeline M) margins hacc (fun hw => by rw [source_main_facts.1] at hw; cases hw)
+
+/-- **the two models of feeding the saved file back agree**: C19's abstract `refeedInput` on the adapter's
+    reading of the saved dictionary accepts and returns the adapter's reading of the input section the
+    dictionary model `checkConf` returns for that same saved dictionary -/
+theorem refeed_models_agree (files : Files) (fl : MachineFlags) (user kvs P : Dict) (m m' : CState)
+    (out : Dict) (hin : Dict.lookup user "input" = some (.obj kvs)) (hpi : Dict.lookup user "pipeline" = some (.obj P))
+    (hnd : C17W.NodupSection kvs) (hfresh : C05W.FreshFor fl m) (hwf : Merge.wfDict P = true)
+    (h : checkConf files inputSchemas fl registry user m = .ok (out, m')) (margins : JVal)
+    (m2 : CState) (hfresh2 : C05W.FreshFor fl m2) :
+    ∃ s out2 m2' L2 R2,
+      savedOfDict (mainSavedDict Pandora.Generated.mainFacts (runIndicators out) margins) = some s ∧
+      checkConf files inputSchemas fl registry
+        (mainSavedDict Pandora.Generated.mainFacts (runIndicators out) margins) m2 = .ok (out2, m2') ∧
+      sideDict out2 "left" = some L2 ∧ sideDict out2 "right" = some R2 ∧
+      refeedInput s = (sideOfDict L2).bind (fun l2 => (sideOfDict R2).map (fun r2 => (l2, r2))) ∧
+      (refeedInput s).isSome = true := by
+  obtain ⟨m2', h2⟩ := saved_config_replays_run files fl user kvs P m m' out hin hpi hnd hfresh hwf h
+    Pandora.Generated.mainFacts source_main_facts.1 margins m2 hfresh2
+  obtain ⟨L', R', M, hci, _, hout⟩ := (C05C.checkConf_ok_iff files fl user kvs P m m' out hin hpi hnd.1 hfresh hwf).1 h
+  obtain ⟨_, _, L2, R2, _, _, _, _, _, hform, hshape⟩ := (C17W.checkInputSection_ok_iff files fl kvs _ hnd.1).1 hci
+  simp only [List.cons.injEq, Prod.mk.injEq, JVal.obj.injEq, true_and, and_true] at hshape
+  obtain ⟨rfl, rfl⟩ := hshape
+  obtain ⟨l, r, hl, hr, hacc, ld, rd, hld, hrd, hdl, hdr⟩ := accepted_sides hform
+  refine ⟨mainSaved Pandora.Generated.mainFacts l r (runPipeline M) margins, runIndicators out, m2', L', R', ?_, h2, ?_, ?_, ?_, ?_⟩
+  · rw [hout, runIndicators_shape]
+    exact savedOfDict_mainSaved _ L' R' (runPipeline M) l r ld rd hl hr hld hrd hdl hdr margins
+  · rw [hout, runIndicators_shape]; simp [sideDict, Dict.lookup]
+  · rw [hout, runIndicators_shape]; simp [sideDict, Dict.lookup]
+  · simp [refeedInput, mainSaved, source_main_facts.1, C19.checkInput_asUser, hacc, hl, hr]
+  · simp [refeedInput, mainSaved, source_main_facts.1, C19.checkInput_asUser, hacc]
+
 /-! ### 4. Non-vacuity: a concrete run -/
 
 /-- a user configuration with a `"NaN"` to rewrite, defaults to add on both sides and in every step, an
@@ -638,6 +995,29 @@ example :
     resultOf (checkConf C17.fs inputSchemas machineFlags registry
       (mainSavedDict { writesRightDisp := true, addsMargins := true } exOut .null) {}) = none := by
   decide
+
+/-- a suffixed confidence step: `check_conf` completes it with the placeholder `indicator: ""`, `run` writes
+    `".amb"` into the dictionary `main` saves, and the saved dictionary completes to itself — not to the first
+    `check_conf` result (`saved_config_replays_run`; cf. the real `pandora.main`, DESIGN_NOTES/C19.md) -/
+example :
+    let user : Dict :=
+      [("input", .obj [("left", .obj [("img", .str "l.tif"), ("disp", .list [.int (-3), .int 2])]),
+                       ("right", .obj [("img", .str "r.tif")])]),
+       ("pipeline", .obj [("matching_cost", .obj [("matching_cost_method", .str "census")]),
+                          ("cost_volume_confidence.amb", .obj [("confidence_method", .str "ambiguity")]),
+                          ("disparity", .obj [("disparity_method", .str "wta")])])]
+    let indicatorIn (d : Option Dict) : Option JVal :=
+      d.bind fun d => (Dict.lookup d "pipeline").bind fun p =>
+        match p with
+        | .obj M => (Dict.lookup M "cost_volume_confidence.amb").bind fun st =>
+            match st with | .obj c => Dict.lookup c "indicator" | _ => none
+        | _ => none
+    let first := resultOf (checkConf C17.fs inputSchemas machineFlags registry user {})
+    let saved := first.map fun out => mainSavedDict Pandora.Generated.mainFacts (runIndicators out) .null
+    indicatorIn first = some (.str "") ∧ indicatorIn saved = some (.str ".amb") ∧
+    (saved.bind fun s => resultOf (checkConf C17.fs inputSchemas machineFlags registry s {})) = first.map runIndicators ∧
+    first.map runIndicators ≠ first := by
+  decide +kernel
 
 /-- `stepCheck` on the concrete steps: the user's filter step completes, the completed step is a fix-point -/
 example :
